@@ -287,9 +287,15 @@ func (o *ovsdbClient) connect(ctx context.Context, reconnect bool) error {
 			db.monitorsMutex.Lock()
 			defer db.monitorsMutex.Unlock()
 
-			// Purge entire cache if no monitors exist to update dynamically
-			if len(db.monitors) == 0 {
+			// Purge the entire cache up front unless there is exactly one
+			// monitor, which decides for itself once it knows whether the
+			// server could resume from its last transaction ID. Purging
+			// while restarting each of several monitors would wipe the
+			// rows of the monitors restarted before it.
+			if len(db.monitors) != 1 {
 				db.cache.Purge(db.model)
+			}
+			if len(db.monitors) == 0 {
 				continue
 			}
 
@@ -1029,12 +1035,13 @@ func (o *ovsdbClient) monitor(ctx context.Context, cookie MonitorCookie, reconne
 	db.cacheMutex.Lock()
 	defer db.cacheMutex.Unlock()
 
-	// On reconnect, purge the cache _unless_ the only monitor is a
+	// On reconnect with a single monitor, purge the cache _unless_ it is a
 	// MonitorCondSince one, whose LastTransactionID was known to the
 	// server. In this case the reply contains only updates to the existing
 	// cache data, while otherwise it includes complete DB data so we must
-	// purge to get rid of old rows.
-	if reconnecting && (len(db.monitors) > 1 || !lastTransactionFound) {
+	// purge to get rid of old rows. With several monitors connect() has
+	// already purged the cache once, before restarting any of them.
+	if reconnecting && len(db.monitors) == 1 && !lastTransactionFound {
 		db.cache.Purge(db.model)
 	}
 
